@@ -173,8 +173,8 @@ _add(
          "from the oracle to land at theta*(1+-1e-4)}, refrac_lock on/off, adapt True/False/None x train/eval; plus "
          "exactly representable ties v == theta (and one ulp either side) for the quadratic neurons. One evaluation = "
          "one neuron step judged by the model-free invariants I1-I6 and (float64) by the one-step model from the "
-         "observed pre-state. distinct = (class, dtype, dt, refractory ratio, drive, lock, adapt, spiking/quiet, batch).",
-    required=["steps_checked", "spikes_seen", "reset_checks", "silence_window_steps", "adaptation_freeze_checks",
+         "observed pre-state (spike set, voltage, refractory time, and the batch-averaged adaptation that sets the next step's threshold / current). distinct = (class, dtype, dt, refractory ratio, drive, lock, adapt, spiking/quiet, batch).",
+    required=["steps_checked", "spikes_seen", "reset_checks", "silence_window_steps", "adaptation_freeze_checks", "adaptation_law_checks",
               "model_steps_checked", "exact_ties_checked"],
     floor={"quick": 400, "thorough": 1500},
     text="Held on every trajectory explored (apart from the listed finding): every forward of the real neuron classes "
@@ -249,10 +249,12 @@ _add(
          "(b) random populations for dense / direct / lateral / conv cells, dt {1,0.5}, batch 1-3, 6-12 steps, with and "
          "without connection delays in both the 'delayed' and delay-frozen trainer modes (delays re-assigned mid-run), "
          "reductions {sum, mean, amax}, scalar rewards of both signs and per-sample reward tensors, for STDP, triplet "
-         "STDP, MSTDP and MSTDPET. One evaluation = one layer step + trainer call + update judged (parts, net change, "
+         "STDP, MSTDP and MSTDPET; (c) two cells in ONE trainer with per-cell hyper-parameter overrides that differ in one "
+         "or two places, sharing either the postsynaptic group (c0, c1 -> n0) or the connection (c0 -> n0, n1: the shared "
+         "accumulator must receive the sum of the two cells' rules), all seven STDP-family trainers. One evaluation = one layer step + trainer call + update judged (parts, net change, "
          "applied change) against sums over recorded spike times; non-trivial when at least one spike pair contributes; "
          "distinct = (trainer, cell type, delay mode, sign mode, trace mode, reduction, batch, reward kind, pairs/no pairs).",
-    required=["trainer_steps_checked", "steps_with_pairs", "exhaustive_histories", "per_cell_override_cases", "multicell_steps_checked"],
+    required=["trainer_steps_checked", "steps_with_pairs", "exhaustive_histories", "per_cell_override_cases", "multicell_steps_checked", "multicell_shared_connection_steps"],
     floor={"quick": 60, "thorough": 150},
     exhaustive={"quick": ["all 4^4 joint pre/post histories of one synapse x 4 sign modes x 2 trace modes"],
                 "thorough": ["all 4^5 joint pre/post histories of one synapse x 4 sign modes x 2 trace modes"]},
